@@ -509,7 +509,7 @@ func checkC15(c *checkCtx) {
 	}
 
 	// ---- (b) class expressions and literals through the real front-end ----
-	nspecs := 6
+	nspecs := 16
 	perSpec := 12
 	if c.thorough() {
 		nspecs = 60
@@ -582,6 +582,58 @@ func checkC15(c *checkCtx) {
 			modelRanges[crefs[i]] = rs
 		}
 	}
+	// the chain real lexer tokens -> class_char_rune -> class_items -> get_ranges (all Gallina) for classes without a difference
+	nChain := 0
+	defer func() {
+		c.cov.Rule += fmt.Sprintf(" ; %d classes also compared with the Gallina chain class_char_rune / class_items / get_ranges over the tokens of the real front-end lexer", nChain)
+	}()
+	chainRanges := map[cref][][2]int{}
+	chainPanic := map[cref]bool{}
+	{
+		var lreqs []escapeReq
+		var lrefs []cref
+		for s, es := range entries {
+			for k, e := range es {
+				if e.class != nil && e.class.sub == nil {
+					lreqs = append(lreqs, escapeReq{Op: "tokens", Src: bytesOf("@lexer\nT = " + e.text + "\n")})
+					lrefs = append(lrefs, cref{s, k})
+				}
+			}
+		}
+		lOut, err := hookJSON[escapeReq, escapeResp]("escape", lreqs)
+		if err != nil {
+			c.addFinding(finding{Signature: "hook-failed", Desc: err.Error(), NoInput: true, Theorem: "loxverif escape", Replay: map[string]any{}})
+			return
+		}
+		var preqs []*req
+		for i, ref := range lrefs {
+			q := newReq("classtoks").b(entries[ref.s][ref.k].class.neg).i(len(lOut[i].Toks))
+			for _, t := range lOut[i].Toks {
+				q.b(t.Type == "CLASS_DASH").ints(t.Str)
+			}
+			preqs = append(preqs, q)
+		}
+		pOut, err := callModel(preqs)
+		if err != nil {
+			c.addFinding(finding{Signature: "model-failed", Desc: err.Error(), NoInput: true, Theorem: "loxmodel classtoks", Replay: map[string]any{}})
+			return
+		}
+		for i, r := range pOut {
+			if r.word() != "items" {
+				chainPanic[lrefs[i]] = true
+				continue
+			}
+			r.intsK(2)
+			if r.word() == "some" {
+				xs := r.intsK(2)
+				rs := [][2]int{}
+				for j := 0; j+1 < len(xs); j += 2 {
+					rs = append(rs, [2]int{xs[j], xs[j+1]})
+				}
+				chainRanges[lrefs[i]] = rs
+			}
+		}
+	}
 	for s, es := range entries {
 		d := dumps[s]
 		if !d.OK {
@@ -620,6 +672,16 @@ func checkC15(c *checkCtx) {
 						witness = map[string]any{"code_point": p, "expected_member": e.class.sem(p), "matched_by_lox": inRanges(p, got)}
 						break
 					}
+				}
+				if _, ok := chainRanges[cref{s, k}]; ok {
+					nChain++
+				}
+				if ch, ok := chainRanges[cref{s, k}]; (ok && !eqInts(flat(got), flat(ch))) || chainPanic[cref{s, k}] {
+					c.addFinding(finding{Signature: "class-token-chain-mismatch",
+						Desc:    fmt.Sprintf("class %s: lox built ranges %v, but the Gallina chain class_char_rune / class_items / get_ranges over the tokens of the real front-end lexer gives %v (panic=%v)", e.text, got, ch, chainPanic[cref{s, k}]),
+						Theorem: "correspondence on_char_class (toRune, x-y pairing) vs EscapeRune.class_char_rune / ClassModel.class_items",
+						NoInput: witness == nil,
+						Replay:  map[string]any{"class_text": e.text, "lox_ranges": got, "model_chain_ranges": ch, "witness": witness}})
 				}
 				if !eqInts(flat(got), flat(want)) || witness != nil {
 					f := finding{Signature: "class-denotation-mismatch",
